@@ -146,6 +146,9 @@ func (obj *Package) Use(pkg *Package) {
 			obj.vars = map[string]*VarVal{}
 		}
 		for name, vv := range pkg.vars {
+			if xv := obj.vars[name]; xv != nil && xv.Pkg == obj {
+				continue // the package's own variable shadows the used one
+			}
 			if vv.Export {
 				obj.vars[name] = vv
 			}
@@ -154,6 +157,9 @@ func (obj *Package) Use(pkg *Package) {
 			obj.funcs = map[string]*FuncInfo{}
 		}
 		for name, fi := range pkg.funcs {
+			if xf := obj.funcs[name]; xf != nil && xf.Pkg == obj {
+				continue // the package's own function shadows the used one
+			}
 			if fi.Export {
 				obj.funcs[name] = fi
 			}
